@@ -18,6 +18,8 @@ import sys
 import time
 import traceback
 
+import logging as _logging
+_logging.getLogger().addHandler(_logging.NullHandler())
 import vlib.env as env
 from vlib import cond as condmod
 
@@ -54,8 +56,8 @@ def _gen_wrapper(module, cname, fixes, extra_pres):
   body = [
       'import typing',
       'import vlib.env',
-      'from %s import *  # noqa' % module,
       'import %s as _M' % module,
+      "globals().update({k: v for k, v in vars(_M).items() if not k.startswith('__')})",
   ]
   for k, v in fixes.items():
     body.append('%s = %s' % (k, v))
